@@ -201,14 +201,15 @@ class _JobBehaviour:
 
 
 class VJob(_JobBehaviour, AbstractJob):
-    def __init__(self, spec):
+    def __init__(self, spec, **extra):
         self._v_init(spec)
         if spec.get('late_attrs'):
-            AbstractJob.__init__(self, label=spec.get('label', spec['id']))
+            AbstractJob.__init__(self, label=spec.get('label', spec['id']), **extra)
             _late_attrs(self, spec)
         else:
             AbstractJob.__init__(self, label=spec.get('label', spec['id']),
-                                 critical=_ctor_critical(spec), forever=spec['forever'])
+                                 critical=_ctor_critical(spec), forever=_flag(spec, spec['forever']),
+                                 **extra)
 
     async def co_run(self):
         return await self._v_body()
@@ -220,18 +221,19 @@ class VJob(_JobBehaviour, AbstractJob):
 class VCoJob(_JobBehaviour, Job):
     """coroutine-based Job: the library's Job.co_run / Job.co_shutdown are used"""
 
-    def __init__(self, spec):
+    def __init__(self, spec, **extra):
         self._v_init(spec)
         self._v_corun = self._v_body()
         self._v_cosd = self._v_shutdown()
         if spec.get('late_attrs'):
             Job.__init__(self, self._v_corun, coshutdown=self._v_cosd,
-                         label=spec.get('label', spec['id']))
+                         label=spec.get('label', spec['id']), **extra)
             _late_attrs(self, spec)
         else:
             Job.__init__(self, self._v_corun, coshutdown=self._v_cosd,
                          label=spec.get('label', spec['id']),
-                         critical=_ctor_critical(spec), forever=spec['forever'])
+                         critical=_ctor_critical(spec), forever=_flag(spec, spec['forever']),
+                                 **extra)
 
     async def co_shutdown(self):
         # a coroutine object can be awaited once only: a second co_shutdown() on the same
@@ -303,7 +305,7 @@ class _SchedBehaviour:
         return value
 
 
-_WATCH = [None]
+_WATCH = [None, 0]
 
 
 def _watch():
@@ -311,6 +313,10 @@ def _watch():
     if _WATCH[0] is None:
         from asynciojobs import Watch
         _WATCH[0] = Watch()
+        if _WATCH[1]:
+            # a Watch created when the program started, long ago
+            from datetime import timedelta
+            _WATCH[0].start -= timedelta(seconds=_WATCH[1])
     return _WATCH[0]
 
 
@@ -324,8 +330,15 @@ def _sched_kwargs(spec):
                 shutdown_timeout=spec['sdt'], verbose=spec['verbose'])
 
 
+def _flag(spec, value):
+    """flags are used by their truth value: 1 / 0 / None are as good as True / False"""
+    if spec.get('flagform') == 'alt':
+        return 1 if value else (None if spec['hkey'] % 2 else 0)
+    return value
+
+
 def _ctor_critical(spec):
-    return False if spec.get('late_critical') else spec['critical']
+    return _flag(spec, False if spec.get('late_critical') else spec['critical'])
 
 
 def _late_attrs(obj, spec):
@@ -342,19 +355,21 @@ def _late_attrs(obj, spec):
         if spec.get('watch'):
             obj.watch = _watch()
     if hasattr(obj, 'critical'):
-        obj.critical = _ctor_critical(spec) if spec['kind'] == 'job' else spec['critical']
-        obj.forever = spec['forever']
+        obj.critical = _ctor_critical(spec) if spec['kind'] == 'job' \
+            else _flag(spec, spec['critical'])
+        obj.forever = _flag(spec, spec['forever'])
 
 
 class VScheduler(_SchedBehaviour, Scheduler):
-    def __init__(self, spec, *jobs):
+    def __init__(self, spec, *jobs, **extra):
         self._v_init(spec)
         if spec.get('late_attrs'):
-            Scheduler.__init__(self, *jobs, label=spec.get('label', spec['id']))
+            Scheduler.__init__(self, *jobs, label=spec.get('label', spec['id']), **extra)
         else:
-            Scheduler.__init__(self, *jobs, critical=spec['critical'],
-                               forever=spec['forever'],
-                               label=spec.get('label', spec['id']), **_sched_kwargs(spec))
+            Scheduler.__init__(self, *jobs, critical=_flag(spec, spec['critical']),
+                               forever=_flag(spec, spec['forever']),
+                               label=spec.get('label', spec['id']), **_sched_kwargs(spec),
+                               **extra)
         _late_attrs(self, spec)
 
 
@@ -406,10 +421,43 @@ def build_latefill(spec, registry):
     return top
 
 
+def build_kw(spec, registry):
+    """top-down construction: every scheduler exists before its members, which register
+    themselves through the documented scheduler= keyword of the job constructors"""
+    def create(sp, parent, top):
+        extra = {} if parent is None else dict(scheduler=parent)
+        if sp['kind'] == 'job':
+            obj = (VCoJob if sp.get('cls') == 'coroutine' else VJob)(sp, **extra)
+        else:
+            if top and sp.get('cls') == 'pure':
+                obj = VPureScheduler(sp)
+            else:
+                obj = VScheduler(sp, **extra)
+            mem = sp['members']
+            for i in sp.get('order', range(len(mem))):
+                create(mem[i], obj, False)
+        registry[sp['id']] = obj
+        return obj
+
+    def wire(sp):
+        if sp['kind'] != 'sched':
+            return
+        mem = sp['members']
+        for i, j in sp['edges']:
+            registry[mem[j]['id']].requires(registry[mem[i]['id']])
+        for m in mem:
+            wire(m)
+    top = create(spec, None, True)
+    wire(spec)
+    return top
+
+
 def build(spec, registry, top=True, prelude=None):
     """instantiate the tree; registry maps id -> object"""
     if top and spec.get('latefill'):
         return build_latefill(spec, registry)
+    if top and spec.get('build') == 'scheduler=' and not spec.get('prelude'):
+        return build_kw(spec, registry)
     if top and spec.get('prelude'):
         prelude = []
     objs = []
@@ -574,6 +622,7 @@ def run_scenario(spec, sampling=False, run_on=True, explicit_shutdown=False,
     out = io.StringIO()
     registry = {}
     _WATCH[0] = None
+    _WATCH[1] = spec.get('watch_age', 0)
     try:
         with contextlib.redirect_stdout(out):
             top = build(spec, registry)
